@@ -131,6 +131,73 @@ def gen_elem2(rng, L, be, hist=None):
     return r
 
 
+def words_of(e, nw):
+    return [(e >> (64 * i)) & (2 ** 64 - 1) for i in range(nw)]
+
+
+def gen_exponent(rng, L, hist=None):
+    """exponent of a square-and-multiply loop as 64-bit words, least significant first; every word count
+    1..NWORDS, with zero words in low / middle / high position (a loop that skips or mis-steps on a zero word,
+    a word boundary or the top word is wrong exactly there)"""
+    n = L.n
+    nw = 1 + rng.below(n)
+    k = rng.below(14)
+    M = 2 ** 64 - 1
+    if k == 0:
+        j = rng.below(nw)
+        cls, ws = "exp_2^(64j)", words_of(1 << (64 * j), nw)
+    elif k == 1:
+        j = rng.below(nw)
+        cls, ws = "exp_k*2^(64j)", words_of((1 + rng.bits(rng.choice([1, 8, 64]))) << (64 * j), n)[:max(nw, j + 1)]
+    elif k == 2:
+        cls, ws = "exp_low_word_zero", [0] + [rng.choice([1, M, rng.bits(64)]) for _ in range(max(nw - 1, 1))]
+    elif k == 3:
+        nw = max(nw, 3)
+        ws = [rng.choice([1, M, rng.bits(64)]) for _ in range(nw)]
+        ws[1 + rng.below(nw - 2)] = 0
+        cls = "exp_middle_word_zero"
+    elif k == 4:
+        cls, ws = "exp_only_top_word", [0] * (nw - 1) + [rng.choice([1, 2, M, rng.bits(64) | 1])]
+    elif k == 5:
+        cls, ws = "exp_all_ones_words", [M] * nw
+    elif k == 6:
+        cls, ws = "exp_p+-1", words_of(L.p + rng.choice([1, -1]), n)
+    elif k == 7:
+        cls, ws = "exp_(p+-1)/2", words_of((L.p + rng.choice([1, -1])) // 2, n)
+    elif k == 8:
+        j = 1 + rng.below(n - 1)
+        e = 1 << (64 * j + rng.choice([-1, 0, 1]))
+        cls, ws = "exp_single_bit_at_word_boundary", words_of(e, n)[:j + 1]
+    elif k == 9:
+        ws = [rng.choice([0, 0, 1, M, rng.bits(64), 1 << rng.below(64)]) for _ in range(nw)]
+        cls = "exp_sparse_words"
+    elif k == 10:
+        cls, ws = "exp_high_zero_padding", [rng.bits(64)] + [0] * (nw - 1)
+    elif k == 11:
+        cls, ws = "exp_small", [rng.choice([0, 1, 2, 3, rng.bits(8)])] + [0] * rng.below(2)
+    else:
+        cls, ws = "exp_uniform", [rng.bits(64) for _ in range(nw)]
+    if hist is not None:
+        hist[cls] = hist.get(cls, 0) + 1
+        hist["exp_words=%d" % len(ws)] = hist.get("exp_words=%d" % len(ws), 0) + 1
+    return ws
+
+
+def pow_fixed_lines(L):
+    """deterministic exponent corner cases for fp2_pow_vartime (base 3+5i and a generic base)"""
+    M = 2 ** 64 - 1
+    bases = [(L.mont(3), L.mont(5)), (L.mont(L.p - 2), L.mont(7))]
+    exps = [[0, 1], [0, 0, 1], [0, 3], [5, 0, 7], [0, 0, 0, 1], [0, M], [M, 0, M], [1, 0], [0], [0, 0],
+            words_of(L.p + 1, L.n), words_of(L.p - 1, L.n), words_of((L.p + 1) // 2, L.n), words_of(1 << (64 * (L.n - 1)), L.n)]
+    for j in range(1, L.n):
+        exps += [words_of(1 << (64 * j - 1), j + 1)[:j + 1], words_of((1 << (64 * j)) + 1, j + 1)]
+    out = []
+    for bi, b in enumerate(bases):
+        for ws in (exps if bi == 0 else exps[:6]):
+            out.append("fp2_pow_vartime %d %x %x %x %s" % (bi, b[0], b[1], len(ws), " ".join("%x" % w for w in ws)))
+    return out
+
+
 # operations of the x86 back-end that call gf*_square
 SQUARE_USERS = {"fp_sqr", "fp_sqrt", "gf_sqrt", "gf_xsquare", "fp2_inv", "fp2_is_square", "fp2_sqrt", "fp2_batched_inv"}
 CHEAP1 = ["fp_neg", "fp_sqr"]
@@ -270,9 +337,8 @@ def gen_lines(rng, L, be, n_cheap, n_exp, hist, ophist, for_c06=False):
             add("fp2_batched_inv", 0, ln, *xs)
         elif k == 13:
             a = E2()
-            nw = 1 + rng.below(2)
-            ws = [rng.choice([0, 1, 2, 3, rng.bits(8), rng.bits(64), 2 ** 64 - 1]) for _i in range(nw)]
-            add("fp2_pow_vartime", rng.below(2), a[0], a[1], nw, *ws)
+            ws = gen_exponent(rng, L, hist)
+            add("fp2_pow_vartime", rng.below(2), a[0], a[1], len(ws), *ws)
         elif be != "ref":
             g = rng.choice(["gf_div", "gf_invert", "gf_sqrt", "gf_legendre", "gf_decode_reduce", "gf_xsquare"])
             if g == "gf_div":
@@ -289,6 +355,11 @@ def gen_lines(rng, L, be, n_cheap, n_exp, hist, ophist, for_c06=False):
                 add(g, rng.below(2) if g != "gf_legendre" else 0, E())
         else:
             add("fp_is_square", 0, E())
+    # exponentiation loops: dedicated share of structured exponents (zero words low / middle / top, boundaries)
+    for _ in range(max(8, n_exp // 5)):
+        a = E2()
+        ws = gen_exponent(rng, L, hist)
+        add("fp2_pow_vartime", rng.below(2), a[0], a[1], len(ws), *ws)
     return out
 
 
@@ -319,6 +390,7 @@ def fixed_lines(L, be):
          "fp_half 0 %x" % L.mont(1), "fp_half 0 %x" % L.mont(L.p - 1), "fp_neg 0 0", "fp_sub 0 0 %x" % L.mont(1),
          "fp2_sqrt 0 %x 0" % L.mont(L.p - 1), "fp2_sqrt 0 %x 0" % L.mont(4), "fp2_sqrt 0 0 %x" % L.mont(2),
          "fp2_sqrt 0 0 %x" % L.mont(L.p - 2), "fp_encode 0 %x" % L.mont(L.p - 1), "fp_decode 0 %x" % (L.p - 1)]
+    o += pow_fixed_lines(L)
     if be != "ref":
         o += ["fp_is_zero 0 %x" % L.p, "fp_is_square 0 %x" % L.p, "fp_inv 0 %x" % L.p, "fp_encode 0 %x" % L.p,
               "fp_is_equal 0 0 %x" % L.p, "fp_neg 0 %x" % L.p, "fp_add 0 %x %x" % (2 ** L.B - 1, 2 ** L.B - 1),
